@@ -17,6 +17,7 @@ func init() {
 
 func checkC10(c *Ctx) {
 	l := c.L
+	checkImportValidatedBeforeWrite(c, "ORDER-import-validated-first")
 	checkDecodedValueNonNil(c)
 	checkPooledBytes(c, "FRESH-pooled-bytes")
 	checkForceUpgradeTable(c, "TABLE-force-rebuild")
@@ -747,4 +748,84 @@ func checkImportWriteOnce(c *Ctx, rule string) {
 		}
 		c.decide(rule, "Importer.Commit writes the root after fixing its nonce", l.ipos(in), r == "recv.stack[0]" && okOrder, "nonce = 1, then writeNode(stack[0])", "Commit writes `"+r+"` / before the root's key is final")
 	}
+}
+
+// checkImportValidatedBeforeWrite (C10): what the final LoadVersion of
+// Importer.Commit refuses for configuration reasons — a store whose first
+// version lies below the configured initial version — is refused when the
+// importer is created.  Commit calls LoadVersion only after its WriteSync:
+// refused there, the import is reported as failed and is in the database.
+func checkImportValidatedBeforeWrite(c *Ctx, rule string) {
+	l := c.L
+	c.rule(rule, "an import below the configured initial version is refused before anything is written", 1)
+	ni := l.Func("", "newImporter")
+	lv := l.Func("", "*MutableTree.LoadVersion")
+	if ni == nil || lv == nil || len(ni.Params) < 2 {
+		c.anchorMissing(rule, "newImporter / LoadVersion")
+		return
+	}
+	// LoadVersion has the refusal (otherwise there is nothing to mirror)
+	refuses := func(fn *ssa.Function, other func(ssa.Value) bool) (bool, ssa.Instruction) {
+		for _, b := range fn.Blocks {
+			iff := ifOf(b)
+			if iff == nil {
+				continue
+			}
+			bo, ok := stripTrivial(iff.Cond).(*ssa.BinOp)
+			if !ok {
+				continue
+			}
+			switch bo.Op {
+			case token.LSS, token.GTR, token.LEQ, token.GEQ:
+			default:
+				continue
+			}
+			rx, ry := roleOf(l, bo.X, "", 0), roleOf(l, bo.Y, "", 0)
+			isInit := func(r string) bool { return strings.Contains(r, "opts.InitialVersion") }
+			if (isInit(rx) && other(bo.Y)) || (isInit(ry) && other(bo.X)) {
+				// one of the edges leaves with an error
+				for si := 0; si < 2; si++ {
+					errOnly := true
+					found := false
+					searchFrom([]point{blockStart(b.Succs[si])}, func(in ssa.Instruction) bool {
+						if r, isR := in.(*ssa.Return); isR {
+							found = true
+							if errNilness(retVal(r, errResultIndex(fn.Signature)), r.Block(), 0) <= 0 {
+								errOnly = false
+							}
+							return true
+						}
+						return false
+					})
+					if found && errOnly {
+						return true, iff
+					}
+				}
+			}
+		}
+		return false, nil
+	}
+	lvHas, _ := refuses(lv, func(v ssa.Value) bool { return strings.Contains(roleOf(l, v, "", 0), "getFirstVersion") })
+	if !lvHas {
+		c.ok(rule, "newImporter refuses a version below the initial version", l.pos(ni.Pos()), "LoadVersion has no initial-version refusal to mirror")
+		return
+	}
+	ver := ni.Params[1]
+	has, at := refuses(ni, func(v ssa.Value) bool {
+		v = stripTrivial(v)
+		for {
+			if cv, ok := v.(*ssa.Convert); ok {
+				v = stripTrivial(cv.X)
+				continue
+			}
+			break
+		}
+		return v == ssa.Value(ver)
+	})
+	pos := l.pos(ni.Pos())
+	if at != nil {
+		pos = l.ipos(at)
+	}
+	c.decide(rule, "newImporter refuses a version below the initial version", pos, has, "compared with opts.InitialVersion, error exit",
+		"the importer accepts a version below the configured initial version; Commit writes the import durably and only then LoadVersion refuses the store (`initial version set to …, but found earlier version …`): the import is reported as failed and is visible in the database")
 }
